@@ -37,3 +37,125 @@ def c02(tier):
 
 
 CHECKS = {"C01": c01, "C02": c02}
+
+
+# ----------------------------------------------------------------------- C11
+import collections
+import json
+import os
+import time
+
+
+def run_records(wd, binary, inputs, configs, profile="release", name="recs"):
+    """run a harness binary over NDJSON inputs in several configurations"""
+    inp = os.path.join(wd, name + "-in.ndjson")
+    core.write_ndjson(inp, [{k: v for k, v in r.items() if k != "tag"} for r in inputs])
+    outs = {}
+    for cfg in configs:
+        bindir = core.build_harness(cfg, profile=profile, bins=[binary])
+        outp = os.path.join(wd, "%s-out-%s.ndjson" % (name, cfg.replace("+", "_")))
+        core.run([os.path.join(bindir, binary), "--in", inp, "--out", outp], timeout=1800)
+        outs[cfg] = core.read_ndjson(outp)
+        if len(outs[cfg]) != len(inputs):
+            raise core.ToolError("%s returned %d records for %d inputs" % (binary, len(outs[cfg]), len(inputs)))
+    return outs
+
+
+def tlc_records(wd, module, recs, name, env=None, timeout=3000):
+    path = os.path.join(wd, name + "-records.ndjson")
+    core.write_ndjson(path, recs)
+    e = {"VERIF_RECORDS": path}
+    e.update(env or {})
+    res = core.tlc(os.path.join(core.SPEC, "cf", module + ".tla"), os.path.join(core.SPEC, "cf", module + ".cfg"),
+                   name, env=e, coverage=False, timeout=timeout)
+    verdicts = {p["id"]: p for p in res.prints if isinstance(p, dict) and "id" in p}
+    bad = core.tlc_fatal(res)
+    if bad or len(verdicts) != len(recs):
+        raise core.ToolError("TLC did not adjudicate every record (%d of %d); errors: %s; see %s" %
+                             (len(verdicts), len(recs), bad[:3], os.path.join(core.WORK, "tlc-" + name + ".log")))
+    return verdicts, res
+
+
+def c11_known(key):
+    """C11 findings are keyed by call-site class: implementation, w, trunc and either an exact q or a lower bound q_ge"""
+    for k in core.load_known():
+        if k.get("status") != "open" or k.get("property") != "C11":
+            continue
+        kk = k["key"]
+        if kk.get("impl") == key["impl"] and kk.get("w") == key["w"] and kk.get("trunc") == key["trunc"] \
+                and kk.get("outcome") == key["outcome"] \
+                and (("q" in kk and kk["q"] == key["q"]) or ("q_ge" in kk and key["q"] >= kk["q_ge"])):
+            return k
+    return None
+
+
+def c11(tier):
+    t0 = time.time()
+    wd = core.workdir("C11")
+    inputs = []
+    for F in (gen.F64, gen.F32):
+        inputs += gen.g_moderate(F, gen.rng_for("C11" + F.name), tier)
+    for k, r in enumerate(inputs):
+        r["id"] = k + 1
+    cfgs = ["std", "std+compact"] if tier == "quick" else ["std", "std+compact", "none", "compact", "std+alloc", "compact+alloc"]
+    outs = run_records(wd, "run_moderate", inputs, cfgs)
+    recs = []
+    for k, r in enumerate(inputs):
+        m = {"id": r["id"], "fmt": r["fmt"], "w": r["w"], "q": r["q"], "trunc": r["trunc"], "outs": []}
+        for cfg in cfgs:
+            o = outs[cfg][k]["res"]
+            m["outs"].append({"cfg": cfg, "kind": o["kind"], "valid": o["valid"], "mant": o["mant"], "exp": o["exp"],
+                              "bits": o["bits"]})
+        recs.append(m)
+    verdicts, res = tlc_records(wd, "CF_Moderate", recs, "C11")
+    violations, known, drift = [], set(), 0
+    outcome = collections.Counter()
+    actions = collections.Counter()
+    by_id = {r["id"]: r for r in inputs}
+    for rid, v in verdicts.items():
+        r = by_id[rid]
+        for k, c in enumerate(v["trail"][:len(cfgs)]):
+            outcome["%s:%s:%s" % (r["fmt"], "bellerophon" if "compact" in cfgs[k] else "lemire", c)] += 1
+        if v["verdict"] == "ok":
+            if "DRIFT" in v["trail"]:
+                drift += 1
+            for tags in json.loads(v["trail"][-1]):
+                for a in tags:
+                    actions[a] += 1
+        else:
+            # one finding per (input, implementation of the stage) whose contract outcome is bad
+            for k, c in enumerate(v["trail"][:len(cfgs)]):
+                if c not in ("wrong", "wrong_interval", "panic"):
+                    continue
+                key = {"fmt": r["fmt"], "impl": "bellerophon" if "compact" in cfgs[k] else "lemire",
+                       "w": str(core.from_limbs(r["w"])), "q": r["q"], "trunc": r["trunc"], "outcome": c}
+                kf = c11_known(key)
+                if kf:
+                    known.add("%s" % kf.get("what", ""))
+                else:
+                    violations.append(core.write_replay("C11", {"property": "C11", "input": key, "config": cfgs[k],
+                                                                "record": recs[rid - 1], "verdict": v}))
+    known = sorted(known)
+    tags = collections.Counter(r["tag"] for r in inputs)
+    cov = {
+        "states": res.distinct, "transitions": res.generated,
+        "traces_validated_against_impl": len(recs) * len(cfgs),
+        "evaluations": len(recs) * len(cfgs),
+        "distinct_nontrivial": len({(r["fmt"], str(r["w"]), r["q"], r["trunc"]) for r in inputs}),
+        "rule": "(w,q,truncated) triples: w = first 17..20 digits of exact float midpoints (+-1) for every / sampled "
+                "exponent field, exact ties inside the tie window, special w and q at every short-circuit, random; "
+                "each run through moderate_path in default (Eisel-Lemire) and compact (Bellerophon) builds; TLC decides "
+                "the contract with IEEE!Judge on w*10^q and on the upper end (w+1)*10^q",
+        "samples": [{"fmt": r["fmt"], "w": str(core.from_limbs(r["w"])), "q": r["q"], "trunc": r["trunc"], "tag": r["tag"]}
+                    for r in inputs[:: max(1, len(inputs) // 8)]][:10],
+        "families": dict(tags), "contract_outcomes": dict(outcome), "model_actions": dict(actions),
+        "model_vs_impl_drift": drift, "configs": cfgs, "tlc_cmd": res.cmd, "exhaustive": False,
+    }
+    core.write_evidence("C11", tier, "model_checking", cov, time.time() - t0, len(violations),
+                        assumptions=["release profile (value property); TLC + BigNat + IEEE oracle trusted as in C01"])
+    if drift:
+        core.log("NOTE: %d records where the algorithm model and the implementation differ in an internal field (DRIFT)" % drift)
+    core.finish("C11", violations, known)
+
+
+CHECKS["C11"] = c11
